@@ -623,6 +623,13 @@ func classify(pers simfs.Personality, p string) string {
 	if len(comps) == 3 && isPseudoSlot(comps[2]) {
 		return "pseudo"
 	}
+	// "<SLOT>.lock": the lock file of a pseudo-ref slot. Since /repo d0aa523 references are updated with git's
+	// lock-file protocol (create <ref>.lock exclusively, write, rename over <ref>); the lock file of an allowed slot
+	// belongs to that slot (git writes exactly these files: HEAD.lock, ORIG_HEAD.lock, ...). Lock files of names
+	// under refs/ are inside refs/ anyway.
+	if len(comps) == 3 && strings.HasSuffix(comps[2], ".lock") && isPseudoSlot(strings.TrimSuffix(comps[2], ".lock")) {
+		return "pseudo"
+	}
 	return "other"
 }
 
